@@ -1,5 +1,4 @@
 import Bmc.Proofs.C15
-import Bmc.Proofs.C15Float
 #print axioms Bmc.Proofs.C15.convert_exact
 #print axioms Bmc.Proofs.C15.printed_value
 #print axioms Bmc.Proofs.C15.printed_canonical
@@ -12,11 +11,3 @@ import Bmc.Proofs.C15Float
 #print axioms Bmc.Proofs.C15.flags_iff
 #print axioms Bmc.Proofs.C15.read_error
 #print axioms Bmc.Proofs.C15.sensor_reading_spec
-#print axioms Bmc.Proofs.C15.convertReading_source
-#print axioms Bmc.Proofs.C15.ab_pow10
-#print axioms Bmc.Proofs.C15.convert_error
-#print axioms Bmc.Proofs.C15.five_roundings
-#print axioms Bmc.Proofs.C15.convert_within_6u
-#print axioms Bmc.Proofs.C15.convert_binary64_within_6u
-#print axioms Bmc.Proofs.C15.driver_prints_convertFloat
-#print axioms Bmc.Proofs.C15.convert_exact_rounding
